@@ -136,7 +136,44 @@ _core._PATCH_REGISTRATIONS[str.__hash__] = _str_hash
 _SIMPLE_ARG = (str, int, float, type(None), bool)
 
 
+def _sym_format(self, other):
+    """``symbolic format string % args`` without realising the format: walked character by character (a fork
+    per symbolic character: is it '%'?), directives %s / %d / %% only; anything else falls back to realisation"""
+    args = other if isinstance(other, tuple) else (other,)
+    out = ''
+    i = 0
+    k = 0
+    n = len(self)
+    while k < n:
+        ch = self[k]
+        if ch == '%':
+            if k + 1 >= n:
+                raise ValueError('incomplete format')
+            nx = self[k + 1]
+            if nx == '%':
+                out = out + '%'
+            elif nx == 's' or nx == 'd':
+                if i >= len(args):
+                    raise TypeError('not enough arguments for format string')
+                out = out + str(args[i])
+                i += 1
+            else:
+                with NoTracing():
+                    return str.__mod__(realize(self), deep_realize(other))
+            k += 2
+        else:
+            out = out + ch
+            k += 1
+    if i != len(args):
+        raise TypeError('not all arguments converted during string formatting')
+    return out
+
+
 def _str_mod(self, other):
+    with NoTracing():
+        symbolic_format = isinstance(self, AnySymbolicStr) and not isinstance(other, dict)
+    if symbolic_format:
+        return _sym_format(self, other)
     with NoTracing():
         if isinstance(self, AnySymbolicStr):
             self = realize(self)
@@ -168,6 +205,16 @@ def _str_mod(self, other):
 
 
 _core._PATCH_REGISTRATIONS[str.__mod__] = _str_mod
+
+
+def _symstr_mod(self, args):
+    # a symbolic str on the left of % dispatches to its own class (AbcString.__mod__ realises ``self.data``)
+    if isinstance(args, dict):
+        return self.data % args
+    return _sym_format(self, args)
+
+
+AnySymbolicStr.__mod__ = _symstr_mod
 
 
 # ---- make CrossHair's symbolic Match faithful to re.Match for named groups ------------------
